@@ -146,6 +146,15 @@ func (g *Gen) UploadOp(b, n string) *Op {
 	}
 	o.Gzip = g.R.Chance(1, 6)
 	o.Chunked = g.R.Chance(1, 4)
+	if o.Proto == "multipart" && g.R.Chance(1, 10) {
+		// an object stored as a gzip stream and marked so: downloads inflate it for a client that does not
+		// accept gzip (this harness), and nothing about the stored object changes by that
+		o.Content = GzOf(n + fmt.Sprint(g.R.Intn(3)))
+		o.Meta.CE = "gzip"
+		if o.Declared == "ok" || o.Declared == "wrong" || o.Declared == "garbage" {
+			o.Declared = "none"
+		}
+	}
 	return o
 }
 
